@@ -363,8 +363,35 @@ func runTierBCase(c *verdict.Ctx, dir string, idx int) {
 		}
 		s.mu.Unlock()
 	}
+	// A header re-signed by the whole validator set and vouched for by a witness (same hash at every height the
+	// provider asks for) IS light-verified: no client can tell it from the chain.  Values taken from it are outside
+	// what the property promises, so they are counted, not reported.  (A fully signed fork nobody vouches for must
+	// still be refused.)
+	vouchedFork := false
+	if tc.Servers[0].Mode == "fork" {
+		vouchedFork = true
+		for h := tc.S; h <= tc.S+2; h++ {
+			ph, _ := servers[0].lightBlock(h)
+			ok := false
+			for _, w := range servers[1:] {
+				if w.lie.Mode == "unsigned" || (w.lie.Mode == "silent" && w.liesAt(h)) {
+					continue // an unsigned forgery does not pass the provider's ValidateBasic; a silent witness has nothing
+				}
+				if wh, _ := w.lightBlock(h); bytes.Equal(wh.Hash(), ph.Hash()) {
+					ok = true
+				}
+			}
+			if !ok {
+				vouchedFork = false
+			}
+		}
+	}
 	outcome := ""
 	for _, rr := range results {
+		if len(rr.bad) > 0 && vouchedFork {
+			c.Count("tier B value from a fully signed fork that a witness vouched for (light-verified; not claimed)", 1)
+			rr.bad = nil
+		}
 		if rr.err != nil {
 			outcome += rr.what + ":err "
 			c.Count("tier B "+rr.what+" refused", 1)
